@@ -16,6 +16,7 @@ func verifHarness_C09_panic() {
 	hook := verifChoice("hook", 4) // 0 none, 1 does nothing, 2 status only, 3 status+body
 	onErr := verifChoice("onError", 3) // 0 no OnError handler, 1 installed, 2 installed and it is the crash point
 	addErr := verifChoice("addError", 2) == 1 || onErr == 2
+	wroteBefore := verifChoice("wroteBefore", 2) == 1 // the response is already committed when the crash happens
 	code := 0
 	if hook >= 2 {
 		code = verifInt("code")
@@ -34,6 +35,9 @@ func verifHarness_C09_panic() {
 			tr.enter(i + 1)
 			if i == 0 && addErr && !second {
 				c.AddError(verifErr{})
+			}
+			if i == 0 && wroteBefore && !second {
+				c.WriteString("partial")
 			}
 			if onErr == 2 {
 				c.Next()
@@ -117,13 +121,17 @@ func verifHarness_C09_panic() {
 		verifAssert(hookRuns == 1, "the hook runs exactly once")
 		verifAssert(hookSaw == any(pv), "the hook finds the recovered value under the documented key")
 		want := 200
-		if hook >= 2 {
+		if hook >= 2 && !wroteBefore {
 			want = code
 		}
-		verifAssert(rec.whCalls == 1 && rec.whStatus == want, "the response is committed once with the status the hook produced")
+		verifAssert(rec.whCalls == 1 && rec.whStatus == want, "the response is committed once with the status the hook produced (or the one already committed)")
 		verifAssert(rec.preCommit == 0, "header before body")
 		if hook == 3 {
-			verifAssert(string(rec.body) == "E", "the hook's body is the response body")
+			wantBody := "E"
+			if wroteBefore {
+				wantBody = "partialE"
+			}
+			verifAssert(string(rec.body) == wantBody, "the hook's body is (the rest of) the response body")
 		}
 	}
 	// the router stays usable: a following request behaves as on a fresh router
